@@ -67,11 +67,12 @@ static const uint32_t POISON_HEAP = 0xA5A5A5A5u, POISON_STACK = 0xFEFEFEFEu;
 struct Engine {
   z3::context ctx;
   bool in_path = false;
-  struct Cons { z3::expr f; std::vector<Var> vars; };
+  struct Cons { z3::expr f; std::vector<Var> vars; bool lin; };      // lin: linear in symbols and in atoms whose definitions are linear
   std::vector<Cons> pc;                                  // path condition, sliced per query
   std::unordered_map<Var, std::vector<int>> pc_idx;      // variable -> conjuncts mentioning it
   std::unordered_map<Var, std::vector<Var>> users;       // variable -> atoms defined over it (persistent)
   std::set<Var> pc_rel;                                  // variables mentioned by the path condition, with the arguments of such atoms
+  std::map<Var, std::pair<mpq_class, mpq_class>> box;     // assumed range of a symbol (assume_range on a single symbol), per path
   std::unique_ptr<z3::model> model;                      // model of the last satisfiable query that asked for one
   std::vector<VarInfo> vars;
   std::vector<z3::expr> zvars;
@@ -219,10 +220,26 @@ static z3::expr z_of(const Poly& p) {
 
 static void vars_of(const Poly& p, std::set<Var>& out) { for (auto& kv : p) for (Var v : kv.first) out.insert(v); }
 
+// linear: every monomial has degree <= 1 in variables that are free symbols or atoms with a linear definition over linear arguments
+static bool var_linear(Var v, int depth = 0);
+static bool poly_linear(const Poly& p, int depth = 0) {
+  if (depth > 20) return false;
+  for (auto& kv : p) { if (kv.first.size() > 1) return false; for (Var v : kv.first) if (!var_linear(v, depth + 1)) return false; }
+  return true;
+}
+static bool var_linear(Var v, int depth) {
+  const VarInfo& vi = E().vars[v];
+  switch (vi.kind) {
+    case V_FREE: case V_UNINIT: case V_UF: return true;          // (an uninterpreted value is just another symbol; its range axiom is linear)
+    case V_ABS: case V_MAX: case V_MIN: case V_INT: for (auto& a : vi.args) if (!poly_linear(a, depth + 1)) return false; return true;
+    default: return false;                                         // sqrt, quotient, angle, sine, cosine: nonlinear definitions
+  }
+}
 static void pc_add(const z3::expr& f, std::initializer_list<const Poly*> polys) {
   Engine& e = E();
   std::set<Var> vs; for (const Poly* p : polys) vars_of(*p, vs);
-  Engine::Cons c{f, std::vector<Var>(vs.begin(), vs.end())};
+  bool lin = true; for (const Poly* p : polys) if (!poly_linear(*p)) lin = false;
+  Engine::Cons c{f, std::vector<Var>(vs.begin(), vs.end()), lin};
   int idx = (int)e.pc.size();
   e.pc.push_back(c);
   for (Var v : c.vars) e.pc_idx[v].push_back(idx);
@@ -259,7 +276,25 @@ static z3::check_result query(const z3::expr* q, const std::set<Var>& qvars, uns
     auto it = e.pc_idx.find(v);
     if (it != e.pc_idx.end()) for (int ci : it->second) if (!inc[ci]) { inc[ci] = 1; for (Var u : e.pc[ci].vars) if (!vs.count(u)) work.push_back(u); }
   }
+  // Relaxation first: when the slice holds nonlinear conjuncts, the query is tried against the linear part only (fewer assumptions:
+  // "unsat" carries over; anything else is re-asked in full).  It keeps bound arguments in linear arithmetic when an earlier fork has
+  // left a quadratic condition on the same symbols in the path condition.
+  double t0 = now_s();
+  z3::check_result r = z3::unknown; bool decided = false;
+  if (q && !want_model && !smt_out) {
+    bool any_nonlin = false; for (size_t i = 0; i < e.pc.size(); i++) if (inc[i] && !e.pc[i].lin) any_nonlin = true;
+    if (any_nonlin) {
+      z3::solver s1(e.ctx); { z3::params p(e.ctx); p.set("timeout", std::min(timeout_ms, 3000u)); s1.set(p); }
+      std::vector<z3::expr> d1; for (Var v : vs) if (var_linear(v)) atom_defs(v, d1);
+      for (auto& d : d1) s1.add(d);
+      for (size_t i = 0; i < e.pc.size(); i++) if (inc[i] && e.pc[i].lin) s1.add(e.pc[i].f);
+      s1.add(*q);
+      z3::check_result r1; try { r1 = s1.check(); } catch (z3::exception&) { r1 = z3::unknown; }
+      if (r1 == z3::unsat) { r = z3::unsat; decided = true; }
+    }
+  }
   z3::solver s(e.ctx);
+  if (!decided) {
   { z3::params p(e.ctx); p.set("timeout", timeout_ms); s.set(p); }
   std::vector<z3::expr> defs;
   for (Var v : vs) atom_defs(v, defs);
@@ -267,9 +302,8 @@ static z3::check_result query(const z3::expr* q, const std::set<Var>& qvars, uns
   for (size_t i = 0; i < e.pc.size(); i++) if (inc[i]) s.add(e.pc[i].f);
   if (q) s.add(*q);
   if (smt_out) *smt_out = s.to_smt2();
-  double t0 = now_s();
-  z3::check_result r;
   try { r = s.check(); } catch (z3::exception& ex) { r = z3::unknown; }
+  }
   double dt = now_s() - t0;
   if (dt > 1.0 && getenv("SX_TRACE")) { std::string qs = q ? q->to_string() : std::string("(pc only)"); std::cerr << "[slow query " << dt << " s, " << (r == z3::sat ? "sat" : r == z3::unsat ? "unsat" : "unknown") << ", vars=" << vs.size() << "] " << qs.substr(0, 300) << "\n"; }
   if (e.st) {
@@ -904,6 +938,50 @@ static int fork_point(int n_options, const std::vector<int>* feasible_opts) {
   return take;
 }
 
+
+// ---- interval pre-filter ---------------------------------------------------------------------------------
+// Enclosure of a polynomial over the boxes assumed for its symbols (256-bit floats, every operation widened outwards).  It decides
+// branch conditions that follow from the assumed ranges alone (outlier tests, tolerance tests on tiny symbolic errors) without a
+// solver call; it uses fewer assumptions than the path condition, so "always true / always false" carries over.
+struct Ival { mpf_class lo, hi; bool ok; };
+static void widen(Ival& x) { mpf_class eps(1, 256); eps >>= 200; mpf_class m = abs(x.lo) > abs(x.hi) ? abs(x.lo) : abs(x.hi); mpf_class d = m * eps + eps; x.lo -= d; x.hi += d; }
+static Ival iv_const(const mpq_class& q) { Ival r{mpf_class(q, 256), mpf_class(q, 256), true}; widen(r); return r; }
+static Ival iv_mul(const Ival& a, const Ival& b) { if (!a.ok || !b.ok) return Ival{mpf_class(0, 256), mpf_class(0, 256), false};
+  mpf_class c[4] = {a.lo * b.lo, a.lo * b.hi, a.hi * b.lo, a.hi * b.hi}; Ival r{c[0], c[0], true}; for (int i = 1; i < 4; i++) { if (c[i] < r.lo) r.lo = c[i]; if (c[i] > r.hi) r.hi = c[i]; } widen(r); return r; }
+static Ival iv_poly(const Poly& p, int depth);
+static Ival iv_var(Var v, int depth) {
+  Engine& e = E(); const VarInfo& vi = e.vars[v]; Ival bad{mpf_class(0, 256), mpf_class(0, 256), false};
+  if (depth > 12) return bad;
+  auto bx = e.box.find(v);
+  Ival r = bad;
+  switch (vi.kind) {
+    case V_FREE: case V_UNINIT: break;
+    case V_UF: if (vi.uf == "acos") { r = Ival{mpf_class(0, 256), mpf_class("3.1415926535897940", 256), true}; } else if (vi.uf == "asin") { r = Ival{mpf_class("-1.5707963267948970", 256), mpf_class("1.5707963267948970", 256), true}; } break;
+    case V_SQRT: { Ival a = iv_poly(vi.args[0], depth + 1); if (!a.ok || a.hi < 0) return bad; if (a.lo < 0) a.lo = 0; r = Ival{sqrt(a.lo), sqrt(a.hi), true}; widen(r); if (r.lo < 0) r.lo = 0; } break;
+    case V_ABS: { Ival a = iv_poly(vi.args[0], depth + 1); if (!a.ok) return bad; mpf_class al = abs(a.lo), ah = abs(a.hi); r.ok = true; r.hi = al > ah ? al : ah; r.lo = (a.lo <= 0 && a.hi >= 0) ? mpf_class(0, 256) : (al < ah ? al : ah); } break;
+    case V_QUOT: { Ival a = iv_poly(vi.args[0], depth + 1), b = iv_poly(vi.args[1], depth + 1); if (!a.ok || !b.ok || (b.lo <= 0 && b.hi >= 0)) return bad; Ival inv{mpf_class(1, 256) / b.hi, mpf_class(1, 256) / b.lo, true}; widen(inv); r = iv_mul(a, inv); } break;
+    case V_MAX: case V_MIN: { Ival a = iv_poly(vi.args[0], depth + 1), b = iv_poly(vi.args[1], depth + 1); if (!a.ok || !b.ok) return bad; r.ok = true;
+      if (vi.kind == V_MAX) { r.lo = a.lo > b.lo ? a.lo : b.lo; r.hi = a.hi > b.hi ? a.hi : b.hi; } else { r.lo = a.lo < b.lo ? a.lo : b.lo; r.hi = a.hi < b.hi ? a.hi : b.hi; } } break;
+    case V_ANGLE: r = Ival{mpf_class("-3.1415926535897940", 256), mpf_class("3.1415926535897940", 256), true}; break;
+    case V_SIN: case V_COS: r = Ival{mpf_class(-1, 256), mpf_class(1, 256), true}; break;
+    default: break;
+  }
+  if (bx != e.box.end()) { Ival b{mpf_class(bx->second.first, 256), mpf_class(bx->second.second, 256), true}; widen(b); if (!r.ok) r = b; else { if (b.lo > r.lo) r.lo = b.lo; if (b.hi < r.hi) r.hi = b.hi; } }
+  return r;
+}
+static Ival iv_poly(const Poly& p, int depth) {
+  Ival s{mpf_class(0, 256), mpf_class(0, 256), true};
+  for (auto& kv : p) { Ival t = iv_const(kv.second);
+    // equal factors are squared together (x*x >= 0)
+    for (size_t i = 0; i < kv.first.size();) { size_t j = i; while (j < kv.first.size() && kv.first[j] == kv.first[i]) j++;
+      Ival f = iv_var(kv.first[i], depth); if (!f.ok) return Ival{mpf_class(0, 256), mpf_class(0, 256), false};
+      Ival pw = f; for (size_t k = i + 1; k < j; k++) pw = iv_mul(pw, f);
+      if ((j - i) % 2 == 0 && pw.lo < 0) pw.lo = 0;
+      t = iv_mul(t, pw); i = j; }
+    s.lo += t.lo; s.hi += t.hi; }
+  widen(s); return s;
+}
+
 static bool decide(const Poly& p, Rel rel) {
   Engine& e = E();
   mpq_class c;
@@ -911,6 +989,9 @@ static bool decide(const Poly& p, Rel rel) {
   if (p_is_const(p)) { int sg; if (const_sign(p, sg)) return rel == R_LT ? sg < 0 : rel == R_LE ? sg <= 0 : sg == 0; }
   { int ss = sign_syntactic(p); if (ss > 0 && rel == R_LT) return false; if (ss < 0 && rel == R_LE) return true; }
   { Poly sq; if (square_two_terms(p, sq)) return decide(sq, rel); }
+  if (e.in_path && !e.box.empty()) { Ival iv = iv_poly(p, 0);
+    if (iv.ok) { if (iv.hi < 0) return rel == R_LT || rel == R_LE;          // p < 0 everywhere in the box
+                 if (iv.lo > 0) return false; } }                              // p > 0 everywhere: neither <, <= nor == holds
   if (!e.in_path) throw Abort{Abort::Unsupported, "symbolic comparison outside a path"};
   if (++e.branches_this_path > e.pol.max_branches) throw Abort{Abort::Budget, "branch budget of the path exceeded"};
   if (e.st) e.st->branch_points++;
@@ -1164,6 +1245,9 @@ void assume_pos(Real t) { Poly p = P(t); pc_add(z_of(p) > 0, {&p}); }
 void assume_ne0(Real t) { Poly p = P(t); pc_add(z_of(p) != 0, {&p}); }
 void assume_range(Real t, const mpq_class& lo, const mpq_class& hi) {
   Engine& e = E(); Poly p = P(t); z3::expr z = z_of(p);
+  if (p.size() == 1 && p.begin()->first.size() == 1 && p.begin()->second == 1) {     // a single symbol: remember its box for the interval pre-filter
+    Var v = p.begin()->first[0]; auto it = e.box.find(v);
+    if (it == e.box.end()) e.box[v] = {lo, hi}; else { if (lo > it->second.first) it->second.first = lo; if (hi < it->second.second) it->second.second = hi; } }
   pc_add(z >= e.ctx.real_val(lo.get_str().c_str()) && z <= e.ctx.real_val(hi.get_str().c_str()), {&p});
 }
 void assume_le(Real a, Real b) { assume_ge0(b - a); }
@@ -1305,7 +1389,7 @@ static void explore_case(const Case& c, CaseStats& st, const Policy& base_policy
     e.terms.clear(); e.terms.shrink_to_fit();
     e.decisions.clear(); e.choices.clear(); e.dpos = 0; e.branches_this_path = 0; e.uninit_counter = 0; e.path_symbolic = false;
     e.pol = base_policy;
-    e.pc.clear(); e.pc_idx.clear(); e.pc_rel.clear(); e.model.reset(); e.in_path = true;
+    e.pc.clear(); e.pc_idx.clear(); e.pc_rel.clear(); e.box.clear(); e.model.reset(); e.in_path = true;
     e.magic.clear(); e.magic_of.clear();
     log << "{\"type\":\"path\",\"name\":\"" << jesc(c.name) << "\",\"prefix\":" << jints(e.prefix) << "}" << std::endl;
     st.paths++;
